@@ -15,6 +15,7 @@ read error → `repair_index` drops the intact pack in release builds).
 -/
 import Rustic.Lemmas.Pack
 import Rustic.Lemmas.Index
+import Rustic.Lemmas.PackWriter
 import Rustic.Props.C17
 import Rustic.Gen.Constants
 namespace Rustic.Props.C08
@@ -232,6 +233,100 @@ example : AE exEnc exDec :=
   ⟨fun x => by simp [exEnc, Rustic.Gen.PACK_COMP_OVERHEAD],
    fun x => by simp [exEnc, exDec, List.take_left']⟩
 
+/-! ### (7) ORDER: a pack reaches the indexer — and any index file — only after its bytes were written
+
+Model `Model/PackWriter.lean`: the two `RawPacker`s (tree, data) with their writer actors and the shared `Indexer`, as a
+transition system whose events are the packer calls (`add_raw` with ANY size limit / age = every flush point, `finalize`),
+the actor stages (`process` = hash + `write_bytes`, which may fail; `index` = `Indexer::add`, which saves an index file on
+its own after `INDEXER_MAX_COUNT` blobs or `MAX_AGE`, and that save may fail) and `Indexer::finalize`, in ANY interleaving.
+`log` is what the backend sees (pack and index file writes with their outcome) plus every `indexer.add`. -/
+open Rustic.PackWriter in
+/-- For every event sequence (all add sequences, flush points, interleavings of the stages of both packers, failing pack
+and index writes): every `indexer.add(p)` and every index file write listing `p` is preceded in the log by a SUCCESSFUL
+`write_bytes(Pack, p.id, file)` whose length is the size the index entry computes (`IndexPack::pack_size`).  `Ordered` is
+the predicate the harness's `order` oracle evaluates on the recorded `MemBackend` log of real commands. -/
+theorem index_only_after_write (enc : Bytes → Bytes) (hash : Bytes → Nat)
+    (hlen : ∀ x, (enc x).length = x.length + Rustic.Gen.PACK_COMP_OVERHEAD) (evs : List Ev) :
+    Ordered (run enc hash St.init evs).log := by
+  rw [ordered_iff]
+  exact (inv_run evs _ (init_inv enc hash)).ordered.imp (fun _ _ h => h.written hlen)
+
+open Rustic.PackWriter in
+/-- … and it is the very file: what was written under `p.id` hashes to `p.id`, has the recorded size, `p` carries no
+explicit `size` field, and (`parse_build`) its header read back by `PackHeader::from_file` with ANY size hint gives exactly
+`p.blobs` — for packs handed to the indexer and for every pack listed by any index file write, failed or not. -/
+theorem indexed_pack_is_the_written_file (enc : Bytes → Bytes) (hash : Bytes → Nat) (dec : Bytes → Option Bytes)
+    (ae : AE enc dec) (evs : List Ev) (pre post : List Log) (e : Log)
+    (hlog : (run enc hash St.init evs).log = pre ++ e :: post) (p : Rustic.Index.IndexPack)
+    (hp : e = .indexAdd p ∨ ∃ packs ok, e = .indexWrite packs ok ∧ p ∈ packs) :
+    ∃ file, Log.packWrite p.id file true ∈ pre ∧ p.id = hash file ∧ file.length = p.packSize ∧ p.size = none ∧
+      ((∀ b ∈ p.blobs, WFBlob b) → packSize p.blobs < 4294967296 →
+        ∀ hint, fromFile dec file hint file.length = .ok p.blobs) := by
+  have hinv := (inv_run evs _ (init_inv enc hash)).ordered pre e post hlog
+  have hb : Backed enc hash pre p := by
+    rcases hp with rfl | ⟨packs, ok, rfl, hmem⟩
+    · exact hinv
+    · exact hinv p hmem
+  obtain ⟨file, hbuilt, hmem, hid, hsz⟩ := hb
+  refine ⟨file, hmem, hid, ?_, hsz, ?_⟩
+  · rw [hbuilt.length ae.len, Rustic.Index.IndexPack.packSize, hsz]
+  · intro hwf hfit hint
+    have hl := hbuilt.length ae.len
+    obtain ⟨q, hq, rfl, hblobs⟩ := hbuilt
+    rw [hl, hblobs]
+    rw [hblobs] at hwf hfit
+    exact fromFile_finish enc dec ae q hq hwf hfit hint
+
+open Rustic.PackWriter in
+/-- (7') … and without faults nothing is left out: for every fault-free event sequence followed by the end of the command
+(`data_packer.finalize()`, `tree_packer.finalize()`, `indexer.finalize()`), every pack write in the log succeeded and its
+pack is listed by a successfully written index file — packs written = packs indexed (with `index_only_after_write`:
+the index files list exactly the stored packs). -/
+theorem finalize_indexes_every_written_pack (enc : Bytes → Bytes) (hash : Bytes → Nat) (evs : List Ev)
+    (hev : ∀ e ∈ evs, e.faultFree = true) (id : Nat) (file : Bytes) (ok : Bool)
+    (hw : Log.packWrite id file ok ∈ (finalizeAll enc hash (run enc hash St.init evs)).log) :
+    ok = true ∧ ∃ packs, Log.indexWrite packs true ∈ (finalizeAll enc hash (run enc hash St.init evs)).log ∧
+      ∃ p ∈ packs, p.id = id := by
+  obtain ⟨hl, hd⟩ := finalizeAll_live (enc := enc) (hash := hash) (live_run evs hev St.init init_live)
+  have hok : ok = true := by
+    cases ok with
+    | true => rfl
+    | false => exact absurd rfl ((hl.noFault _ hw).1 id file)
+  subst hok
+  refine ⟨rfl, ?_⟩
+  rcases hl.acc id file hw with ⟨t, p, hp, _⟩ | ⟨p, hp, hid⟩ | h3
+  · rw [hd t] at hp; cases hp
+  · unfold finalizeAll at hp ⊢
+    simp only at hp ⊢
+    obtain ⟨packs, hpk, hpp⟩ := finalizeIndexer_covers _ p hp
+    exact ⟨packs, hpk, p, hpp, hid⟩
+  · exact h3
+
+set_option maxRecDepth 10000 in
+open Rustic.PackWriter in
+/-- The order matters (seeded change C08-2): with `process` handing the pack to the indexer BEFORE `write_bytes`
+(`stepSwapped`), one add, a flush, a failing pack write and `Indexer::finalize` leave an index file write that lists a pack
+which was never stored — the log is not `Ordered`; the same events through the real order write no index file at all. -/
+theorem swapped_order_breaks_it :
+    let evs : List Ev := [.add .data [1, 2, 3] 7 none 1000 false, .flush .data, .write .data true, .finalizeIndexer false]
+    ¬ Ordered (evs.foldl (stepSwapped exEnc List.length) St.init).log ∧
+      ((evs.foldl (stepSwapped exEnc List.length) St.init).log.any fun e => match e with
+        | .indexWrite [p] true => p.id == 76 && p.blobs == [⟨7, .data, ⟨0, 3, none⟩⟩]
+        | _ => false) = true ∧
+      ((run exEnc List.length St.init evs).log.all fun e => match e with
+        | .packWrite 76 _ false => true
+        | _ => false) = true := by
+  refine ⟨?_, by decide, by decide⟩
+  rw [ordered_iff_check]
+  decide
+
+/-- the pack writer on two adds (one per lane), then the end of the command: two pack writes, each followed by its
+`indexer.add`, and one index file listing both packs — `Ordered`, nothing failing -/
+example :
+    let s := Rustic.PackWriter.finalizeAll exEnc List.length (Rustic.PackWriter.run exEnc List.length Rustic.PackWriter.St.init
+      [.add .data [1, 2, 3] 7 none 1000 false, .add .tree [4] 8 none 1000 false])
+    Rustic.PackWriter.orderedFrom [] s.log = true ∧ s.log.length = 5 ∧
+      (s.log.any fun e => match e with | .indexWrite [_, _] true => true | _ => false) = true := by decide
 /-- two blobs and a skipped duplicate; header is 32 + 37 + 41, pack is 3 + 5 + header + 4 -/
 def exAdds : List (Bytes × Nat × Option Nat) := [([1, 2, 3], 7, none), ([9], 7, none), ([4, 5, 6, 7, 8], 300, some 77)]
 
